@@ -9,6 +9,8 @@ def run(ctx):
     common.replay_layer(ctx, "MC_Balance.tla", "MC_Balance_quick.cfg" if q else "MC_Balance_thorough.cfg", "balance-replay", "balance",
                         workers=10, heap="3g" if q else "6g")
     common.replay_layer(ctx, "MC_Balance.tla", "MC_Balance_odd.cfg", "balance-replay", "balanceodd", workers=10, heap="3g")
+    if ctx.tier == "thorough":
+        vlib.vacuity_check(ctx, "MC_Balance.tla", "MC_Balance_quick.cfg", expect_zero=())
     return vlib.finish(
         ctx, "model_checking",
         rule="Balance.tla: every log of <= 3 (thorough: 4) entries over all 14 names of depth <= 3 on 2 segments (shared prefixes, name-prefix-of-name "
